@@ -135,7 +135,7 @@ GenBase(h)    == CASE h.s = "GL" -> HSeq("list", h.a[1]) [] h.s = "GN" -> HSeq("
 \* PEP 695 recursive alias   type R = list[R | h] :  lists of (h or R) to any depth.  beartype unrolls it one
 \* layer and must then IGNORE what it cannot express: RecExp(h) = list[list | h]  (redpep695.py).  The spec
 \* mutant rec_drop_marker drops the recursive member instead (list[list[h] | h]: beartype 0.23.0).
-HRec(h)       == H("rec", "list", <<h>>, <<>>)
+HRecAlias(h)       == H("rec", "list", <<h>>, <<>>)
 RecExp(h)     == HSeq("list", HUnion(<<IF Mut = "rec_drop_marker" THEN HSeq("list", h.a[1]) ELSE HCls("list"), h.a[1]>>))
 HAnn(h, vs)   == H("ann", "", <<h>>, vs)                 \* Annotated[h, V1, ..., Vn], Vi beartype validators
 
